@@ -110,6 +110,21 @@ def cases(tier, seed, info):
         # split to keep records of one case below ~3000 decodes
         for j in range(0, len(inputs), 1500):
             out.append(dict(kind='decode', base=k, inputs=inputs[j:j + 1500]))
+    # well-formed PELs whose text / JSON user data holds long runs of the characters the output stage scans for
+    patho = []
+    for ch in ('\\', '"', ':', '{', '\u00e9', '\\"', '":', ' '):
+        for n in (24, 60, 200):
+            for sub, body in ((3, 'x' + ch * n + 'y\n' + ch * n), (1, json.dumps({'k' + ch * 3: [ch * n, 'z'], ch * n: ch * n}))):
+                raw = body.encode('utf-8')
+                raw += b'\x00' * ((-len(raw)) % 4)
+                sec = dict(kind='UD', id=encode.text('UD'), ver=1, sub=sub, comp=[0x20, 0x00], payload=list(raw))
+                pel = genpel.gen_pel(rng, kinds=[], creator='O')
+                pel['secs'] = [sec]
+                patho.append((bytes(encode.encode(pel)).hex(), False))
+    for j in range(0, len(patho), 8):
+        out.append(dict(kind='decode', base=-2, inputs=patho[j:j + 8]))
+    total += len(patho)
+    info['pathological_content_pels'] = len(patho)
     # random strings and header-only strings
     rnd = []
     hdrs = bytes(encode.encode(genpel.gen_pel(rng, kinds=[])))
